@@ -39,6 +39,22 @@ func (k Keeper) RandomIndex(seed *big.Int, total, count int) []int {
 		return idx
 	}
 	for count > 0 {
+		if seed.Sign() == 0 {
+			// seed exhausted: every further draw would be 0, take the lowest unused indexes instead
+			for rs := 0; rs < total && count > 0; rs++ {
+				duplicate := false
+				for _, v := range idx {
+					if rs == v {
+						duplicate = true
+					}
+				}
+				if !duplicate {
+					idx = append(idx, rs)
+					count -= 1
+				}
+			}
+			break
+		}
 		rs := int(new(big.Int).Mod(seed, big.NewInt(int64(mod))).Int64()) % total
 		seed = new(big.Int).Div(seed, big.NewInt(10))
 		duplicate := false
